@@ -153,6 +153,8 @@ inductive HttpOutcome where
   | valid (h : Hash)        -- 200, known content type, parseable
   | empty                   -- 200 with an empty body / empty document
   | invalid                 -- 200 but not parseable, invalid, or unsupported content type
+  | truncated (h : Hash)      -- 200 announcing content `h` of which only a proper prefix arrives (connection lost
+                            -- mid-body, aborted chunked transfer): reading fails inside the decoder, `ErrInternal`
   | status (code : Nat)     -- any status but 200 (`ErrCommunication`)
   | network                 -- no response (`ErrCommunication` / `ErrCommunicationTimeout`)
   | cancelled               -- `context.Canceled`
@@ -163,6 +165,14 @@ structure HttpEvent (σ : Type) where
   outcome : HttpOutcome
   rej     : List σ
 deriving Repr
+
+/-- An answer that arrived but is not complete is *content* that cannot be used, not the absence of the source: the
+response is there (status 200, headers) and what follows is not a rule set.  Of every 200 answer the code under test
+takes whatever the decoder makes of the bytes that arrive; a body that ends before its announced end makes the decoder
+fail whatever the bytes received so far look like (also where they would be a complete document by themselves) -/
+def HttpOutcome.incomplete : HttpOutcome → Bool
+  | .truncated _ => true
+  | _ => false
 
 /-- `ruleSetsUpdated`; `rs = none` is the rule set without rules built after a failed fetch -/
 def httpUpdated (rej : List σ) (st : St σ) (id : σ) (rs : Option Hash) : Out σ :=
@@ -176,6 +186,7 @@ def httpStep (st : St σ) (e : HttpEvent σ) : Out σ :=
   match e.outcome with
   | .cancelled => .quiet st
   | .invalid => .failed st
+  | .truncated _ => .failed st       -- decoding error, not a communication error: nothing is called, nothing forgotten
   | .valid h => httpUpdated e.rej st e.id (some h)
   | .empty => httpUpdated e.rej st e.id none
   | .status _ => httpUpdated e.rej st e.id none
@@ -187,7 +198,13 @@ inductive BlobState where
   | valid (h : Hash)
   | empty
   | invalid
+  | truncated (h : Hash)      -- the blob holds content `h`, attributes and listing are fine, but the GET of the object
+                            -- breaks off mid-body: the decoder fails on the read error, the blob counts as unusable
 deriving DecidableEq, Repr
+
+def BlobState.incomplete : BlobState → Bool
+  | .truncated _ => true
+  | _ => false
 
 /-- result of one poll of a bucket -/
 inductive BlobFetch (σ : Type) where
@@ -215,10 +232,12 @@ def blobRuleSets : BlobFetch σ → Option (List (σ × Option Hash))
       match b with
       | .valid h => some (id, some h)
       | .empty => none
-      | .invalid => some (id, none))
+      | .invalid => some (id, none)
+      | .truncated _ => some (id, none))
   | .single id (some (.valid h)) => some [(id, some h)]
   | .single _ (some .empty) => some []
   | .single _ (some .invalid) => none
+  | .single _ (some (.truncated _)) => none
   | .single _ none => some []
 
 def seqOut (o : Out σ) (f : St σ → Out σ) : Out σ :=
